@@ -6,7 +6,8 @@ from vlib.runner import Violation
 ID = "C10"
 LEVEL = "exploration"
 RULE = (
-    "span streams of 1..14 occurrences over an id pool of 1..6 ids (so "
+    "span streams of 1..14 occurrences over an id pool of 1..6 ids (plain, "
+    "with punctuation, or twins up to case / surrounding white space; so "
     "duplicates are dense), every occurrence with its own payload "
     "(type, trace id, name, times, application) and parent (null / a pool id "
     "/ an id never ingested); each stream is ingested with EVERY batch size "
@@ -266,7 +267,13 @@ def case_strategy():
     def build(draw):
         pool = draw(st.integers(1, 6))
         n = draw(st.integers(1, 14))
-        ids = [f"e{k}" for k in range(pool)]
+        # span ids are arbitrary strings: plain, or with punctuation, or
+        # differing only by case / surrounding white space
+        style = draw(st.sampled_from(["e{}", "e{}", "e{}", "h-1,{}", "a'{}\"",
+                                      "x {}", "{}%", "E{}", " e{}", "e{} "]))
+        ids = [style.format(k) for k in range(pool)]
+        if style in ("E{}", " e{}", "e{} ") and pool >= 2:
+            ids[0] = "e1"           # twin of ids[1] up to case / white space
         events = []
         for k in range(n):
             sid = draw(st.sampled_from(ids))
